@@ -41,6 +41,16 @@ Theorem C13_multi_min_orig_refuted : ~ multi_min_stmt Orig.
 Proof. exact multi_min_orig_refuted. Qed.
 Print Assumptions C13_multi_min_orig_refuted.
 
+(* the witnesses, on the original fold: counts [0,5] and [3,0,5] report 5 although a sink took 0 bytes;
+   no sink at all: a short count with a nil error *)
+Theorem C13_multi_min_orig_witness :
+  write_orig (multi_of [sk 1 0; sk 2 5]) hello = (5, [], [EWrite 1 hello; EWrite 2 hello]) /\
+  smallest (zlen hello) [0; 5] = 0 /\
+  w_n (write_orig (multi_of [sk 1 3; sk 2 0; sk 3 5]) hello) = 5 /\
+  write_orig (multi_of []) hello = (0, [], []).
+Proof. exact (conj eq_refl (conj eq_refl (conj multi_min_orig_refuted_305 multi_empty_orig_short))). Qed.
+Print Assumptions C13_multi_min_orig_witness.
+
 (* all errors of all sinks, in order (nil iff every sink returned nil) *)
 Theorem C13_multi_errs : forall v (l : list sink) p, w_e (write v (multi_of l) p) = concat (map s_we l).
 Proof. exact multi_errs. Qed.
@@ -138,6 +148,11 @@ Print Assumptions C13_full_accept.
 Theorem C13_full_accept_stdlog_orig_refuted : ~ stdlog_accept_stmt Orig.
 Proof. exact stdlog_accept_orig_refuted. Qed.
 Print Assumptions C13_full_accept_stdlog_orig_refuted.
+
+Theorem C13_full_accept_stdlog_orig_witness :
+  stdlog_write_orig true sp_hello_nl [] = (5, 0, [hello]) /\ zlen sp_hello_nl = 9.
+Proof. exact stdlog_orig_witness. Qed.
+Print Assumptions C13_full_accept_stdlog_orig_witness.
 
 (* what the bridge logs for ASCII payloads: p without the white space around it *)
 Theorem C13_stdlog_message : forall p,
